@@ -132,6 +132,52 @@ def structure_bits(enc, spans, which):
     return sorted(set(p for p in pos if p >= 0))
 
 
+def w_cross(case):
+    """double faults across fields: one flip in the data sync/mark of sector i and one in the ID sync/mark of sector i+1"""
+    res = mkres()
+    try:
+        enc, i = case['enc'], case['i']
+        secs, bits, spans = make_track(enc, 3)
+        sync = 6 if enc == 'F' else 12
+        a = list(range(spans[i]['dm'] - 32, spans[i]['data']))
+        st = spans[i + 1]['start'] + (sync - 2) * 16
+        b = list(range(st, st + 32 + (16 if enc == 'F' else 64) + 16))
+        a = a[case['alo']:case['ahi']]
+        r = mcx.call('san', mcx.req_pairs(enc, bits, a + b))
+        if r.status() != 'exit0':
+            res['viol'].append(('C06:cross:crash', r.status() + ' ' + r.err[-300:].decode('latin-1')))
+            res['case'] = case
+            return res
+        rd = mcx.Reader(r.out)
+        rd.sectors_full()
+        pos = a + b
+        n = 0
+        for x in range(len(pos)):
+            for y in range(x + 1, len(pos)):
+                yv = rd.sectors_compact()
+                judge(enc, secs, yv, res, 'C06:%s:flip-pair:data-mark-of-n+id-mark-of-n+1' % ('fm' if enc == 'F' else 'mfm'),
+                      'flips at bits %d and %d (sector %d data mark region / sector %d ID mark region)' % (pos[x], pos[y], i, i + 1))
+                n += 1
+        res['n'] += n
+        res['ntcount'] = n
+        res['nt'].append((enc, i, case['alo']))
+        if res['viol']:
+            res['case'] = case
+    except Exception:
+        import traceback
+        res['viol'].append(('HARNESS', traceback.format_exc()))
+        res['case'] = case
+    return res
+
+
+def fam_cross(tier):
+    """pairs of flips, one in the data sync/mark of sector n and one in the ID sync/mark of sector n+1 (all pairs)"""
+    for enc in ('F', 'M'):
+        for i in (0, 1):
+            for alo in range(0, 130, 16):
+                yield {'w': 'cross', 'enc': enc, 'i': i, 'alo': alo, 'ahi': alo + 16}
+
+
 def w_pairs(case):
     res = mkres()
     try:
@@ -285,7 +331,7 @@ def w_image(case):
 
 
 def worker(case):
-    return {'sweep': w_sweep, 'pairs': w_pairs, 'image': w_image}[case['w']](case)
+    return {'sweep': w_sweep, 'pairs': w_pairs, 'image': w_image, 'cross': w_cross}[case['w']](case)
 
 
 def track_bits(enc, nsect):
@@ -363,7 +409,7 @@ def fam_image(tier):
 
 
 FAMILIES = [('S-single-faults-3-sector-tracks', fam_single), ('D-deleted-and-bad-crc-records', fam_deleted), ('I-image-level-damaged-subsets', fam_image),
-            ('P-flip-pairs-structure-bits', fam_pairs), ('F-full-track-single-faults', fam_full)]
+            ('P-flip-pairs-structure-bits', fam_pairs), ('X-cross-field-double-faults', fam_cross), ('F-full-track-single-faults', fam_full)]
 
 
 def main(tier, seed):
